@@ -255,6 +255,10 @@ CLAIMS["C08"]["text"] += (" Added: among several trailing-slash candidates the f
 CLAIMS["C09"]["text"] += (" Added: the path sub-walk of a hostname route starts only when the whole host has been consumed by whole node keys (assert@call:lookupByPath#1.whole-host): "
     "a route for h.com is never entered for h.com.evil.org or h.comx, for every tree and host.")
 CLAIMS["C10"]["text"] += (" Added: parseWildcard's contract (one entry per '{', ends inside the fragment) is checked under C10 as well: extraction must agree with what parseRoute accepts.")
+CLAIMS["C10"]["text"] += (" The configured limits: New puts the defaults (65535) in place before the first option runs and hands on exactly what the options left; "
+    "WithMaxRouteParams / WithMaxRouteParamKeyBytes store the value given, zero included.")
+CLAIMS["C11"]["text"] += (" Added: the context-hygiene clauses of the walks (the stack of saved alternatives only holds valid entries, a lazy walk never grows or resurrects the parameter list, "
+    "the parameter counter never exceeds the recorded list) are checked under C11 as well - the Allow loops run lazy lookups on the request's own context.")
 CLAIMS["C12"]["text"] += (" Added: pool balance - ServeHTTP puts its context back on every path, Lookup and CloneWith hand out exactly one live context, Close returns it; copyWithResize "
     "resizes the destination to the source's length and copies every entry (a recycled buffer that keeps a longer tail fails `len(*dst) == len(*src)`); CloneWith, copyWithResize are verified for safety (no longer partial).")
 CLAIMS["C15"]["text"] += (" Added: the single-operation helpers Handle/HandleRoute/Update/UpdateRoute/Delete release the writer lock and publish nothing when a route option or middleware constructor panics "
